@@ -512,6 +512,8 @@ type Monitor struct {
 	Mutex    string   // field name
 	Fields   []string // protected fields
 	Inv      []Clause // monitor invariant clauses over `self`
+	LockGhost   []GhostAssign // ghost code run by every Lock of this monitor (after the invariant is assumed)
+	UnlockGhost []GhostAssign // ghost code run by every Unlock (before the invariant is checked)
 }
 
 type Specs struct {
@@ -533,7 +535,7 @@ var specKeywords = map[string]bool{
 	"decreases": true, "pred": true, "props": true, "safety": true, "inline": true,
 	"trusted": true, "pure": true, "protected": true, "moninv": true, "ghost": true,
 	"axiom": true, "note": true, "params": true, "results": true, "at": true, "havoc": true,
-	"unroll": true, "implements": true, "uses": true,
+	"unroll": true, "implements": true, "uses": true, "monghost": true,
 }
 
 func loadSpecs(files []string) (*Specs, error) {
@@ -830,6 +832,46 @@ func (sp *Specs) loadFile(path string) error {
 				return err
 			}
 			curMon.Inv = append(curMon.Inv, c)
+		case "monghost":
+			// monghost lock { a = b; ... }   /   monghost unlock { ... }
+			if curMon == nil {
+				return fail(d, "monghost outside protected")
+			}
+			txt := stripComment(d.text)
+			ob := strings.Index(txt, "{")
+			cb := strings.LastIndex(txt, "}")
+			if ob < 0 || cb < ob {
+				return fail(d, "monghost lock|unlock { ... }")
+			}
+			which := strings.TrimSpace(txt[:ob])
+			var gas []GhostAssign
+			for _, st := range splitTop(txt[ob+1:cb], ';') {
+				st = strings.TrimSpace(st)
+				if st == "" {
+					continue
+				}
+				k := indexTopAssign(st)
+				if k < 0 {
+					return fail(d, "ghost statement must be an assignment: %q", st)
+				}
+				l, err := parseExpr(st[:k])
+				if err != nil {
+					return fail(d, "%v", err)
+				}
+				rr, err := parseExpr(st[k+1:])
+				if err != nil {
+					return fail(d, "%v", err)
+				}
+				gas = append(gas, GhostAssign{l, rr})
+			}
+			switch which {
+			case "lock":
+				curMon.LockGhost = append(curMon.LockGhost, gas...)
+			case "unlock":
+				curMon.UnlockGhost = append(curMon.UnlockGhost, gas...)
+			default:
+				return fail(d, "monghost lock|unlock")
+			}
 		case "ghost":
 			// ghost name : sort      (component declaration)   e.g. ghost live : (Array Int Bool)
 			txt := stripComment(d.text)
